@@ -377,8 +377,16 @@ fn u256_idiv_u128_special(xh: &mut u128, xl: &mut u128, mut y: u128) -> u128 {
         if rhat >= B {
             #[cfg(feature = "verif-hooks")]
             verif::hit(verif::KNUTH_Q1_BREAK);
+            #[cfg(feature = "verif-hooks")]
+            if rhat == B {
+                verif::hit(verif::KNUTH_Q1_RHAT_EQ_B);
+            }
             break;
         }
+    }
+    #[cfg(feature = "verif-hooks")]
+    if rhat < B && q1 < B && q1 * yn0 == rhat * B + xn1 {
+        verif::hit(verif::KNUTH_Q1_EQ);
     }
     #[cfg(feature = "verif-hooks")]
     {
@@ -413,8 +421,16 @@ fn u256_idiv_u128_special(xh: &mut u128, xl: &mut u128, mut y: u128) -> u128 {
         if rhat >= B {
             #[cfg(feature = "verif-hooks")]
             verif::hit(verif::KNUTH_Q0_BREAK);
+            #[cfg(feature = "verif-hooks")]
+            if rhat == B {
+                verif::hit(verif::KNUTH_Q0_RHAT_EQ_B);
+            }
             break;
         }
+    }
+    #[cfg(feature = "verif-hooks")]
+    if rhat < B && q0 < B && q0 * yn0 == rhat * B + xn0 {
+        verif::hit(verif::KNUTH_Q0_EQ);
     }
     #[cfg(feature = "verif-hooks")]
     verif::hit_n(verif::KNUTH_Q0_DEC1, vh_n_dec);
